@@ -77,6 +77,8 @@ def act_sexp(a):
     k = a[0]
     if k == "raw":
         return ""
+    if k == "setparam":
+        return "(c 1)"
     if k == "c":
         return "(c %d)" % a[1]
     if k in ("skip", "expect", "call"):
@@ -133,6 +135,8 @@ def act_scn(a):
         return "%s %d" % (k, a[1])
     if k == "raw":
         return a[1]
+    if k == "setparam":
+        return "setparam"
     raise ValueError(a)
 
 
